@@ -153,6 +153,10 @@ pub fn std_resources() -> Vec<Resource> {
         resource("ns:a", &[], ResourceType::Mime(MimeType::TextPlain), "ns-a", &[], 0),
         resource("fn", &[], ResourceType::Mime(MimeType::FnJavascript), "function fn(){}", &[], 0),
         resource("tpl", &[], ResourceType::Template, "tpl({{1}})", &[], 0),
+        // binary content (not UTF-8) under a kind outside the table (`application/octet-stream`)
+        // and under a media kind: both are loaded and served as they are
+        Resource { content: "//4A".to_string(), ..resource("bin", &[], ResourceType::Mime(MimeType::Unknown), "", &[], 0) },
+        Resource { content: "AAH/gA==".to_string(), ..resource("vid", &[], ResourceType::Mime(MimeType::VideoMp4), "", &[], 0) },
         // identifier collisions (order matters): `bad` is rejected because its second alias is
         // taken; it must leave no trace, so `s1x` (its first alias) can be loaded afterwards as a
         // resource of its own; `bad2` is rejected the same way, then a resource really named
